@@ -30,7 +30,7 @@ ASSUMPTIONS = ['total=None reference: dense pseudo-inverse minimum-variance esti
 
 ATTRS = ['A', 'B']
 SIZES = [2, 3]
-STRUCTS = {'A': [('A',)], 'AB': [('A', 'B')], 'A-B': [('A',), ('B',)], 'AB-B': [('A', 'B'), ('B',)]}
+STRUCTS = {'A': [('A',)], 'AB': [('A', 'B')], 'A-B': [('A',), ('B',)], 'AB-B': [('A', 'B'), ('B',)], 'AB-BA': [('A', 'B'), ('B', 'A')], 'BA': [('B', 'A')]}
 PRIVATE = {
     'p1': [(0, 0)] * 5 + [(1, 2)] * 3 + [(0, 1)] * 2,
     'p2': [(1, 0), (1, 1), (1, 2), (0, 2)],
@@ -139,11 +139,12 @@ def run_public(acc, pi, tier, seed, only=None):
     dom = Domain(ATTRS, SIZES)
     frame0 = np.array(pub, dtype=int).reshape(len(pub), 2)
     privs = ['p1', 'p2', 'p3'] if tier == 'thorough' else [['p1', 'p2', 'p3'][pi % 3]]
-    combos = [(priv, struct, kind, sigma) for priv in privs for struct, kind, sigma in itertools.product(STRUCTS, ['identity', 'prefix'], [0.5, 2.0])
+    sts = list(STRUCTS) if tier == 'thorough' else [list(STRUCTS)[(pi + j) % 6] for j in (0, 1, 3, 4)]
+    combos = [(priv, struct, kind, sigma) for priv in privs for struct, kind, sigma in itertools.product(sts, ['identity', 'prefix'], [0.5, 2.0])
               if not (tier == 'quick' and (kind == 'identity') != (sigma == 0.5))]
     ex = EXTREME if tier == 'thorough' else [EXTREME[pi % 3]]
     combos += [(priv, struct, 'identity' if list(STRUCTS).index(struct) % 2 == 0 else 'prefix', sigma) for (priv, sigma) in ex
-               for struct in (STRUCTS if tier == 'thorough' else [list(STRUCTS)[pi % 4], list(STRUCTS)[(pi + 1) % 4]])]
+               for struct in (STRUCTS if tier == 'thorough' else [list(STRUCTS)[pi % 6], list(STRUCTS)[(pi + 1) % 6]])]
     for priv, struct, kind, sigma in combos:
         N = float(len(PRIVATE[priv]))
         if True:
@@ -170,8 +171,8 @@ def run_public(acc, pi, tier, seed, only=None):
                 for kd, msg in fails:
                     acc.violate(case, {'kind': kd, 'call': 1}, 'public %r, %s/%s/sigma=%g/total=%s: %s' % (pub, struct, kind, sigma, tmode, msg))
                 # history: a second call on the same object with every other structure (validity clauses only)
-                if tier == 'thorough' or (struct == list(STRUCTS)[pi % 4] and kind == 'prefix'):
-                    for s2 in (list(STRUCTS) if tier == 'thorough' else [list(STRUCTS)[(pi + 1) % 4]]):
+                if tier == 'thorough' or (struct == list(STRUCTS)[pi % 6] and kind == 'prefix'):
+                    for s2 in (list(STRUCTS) if tier == 'thorough' else [list(STRUCTS)[(pi + 1) % 6], list(STRUCTS)[(pi + 4) % 6]]):
                         if s2 == struct or (only is not None and only['second'] != s2):
                             continue
                         ms2, dense2 = build_measurements(s2, 'prefix' if kind == 'identity' else 'identity', sigma, priv, seed + 1)
